@@ -22,5 +22,5 @@ func (m *Map[K, V]) CompareAndSwap(key K, old V, new V) (deleted bool) {
 }
 func (m *Map[K, V]) Swap(key K, value V) (previous V, loaded bool) {
 	previousUntyped, loaded := m.m.Swap(key, value)
-	return previousUntyped.(V), loaded
+	return cast[V](previousUntyped), loaded
 }
